@@ -4,7 +4,7 @@ c11_tie = importlib.util.module_from_spec(_spec); _spec.loader.exec_module(c11_t
 T = "GeomV.C11."
 CFG = {
     "id": "C11",
-    "lean_modules": ["GeomV.C11.Proofs", "GeomV.C11.ProofsArith", "GeomV.C11.ProofsFill", "GeomV.C11.ProofsHeap", "GeomV.C11.ProofsParent", "GeomV.C11.ProofsParentIns"] + c11_tie.C11_TIES,
+    "lean_modules": ["GeomV.C11.Proofs", "GeomV.C11.ProofsArith", "GeomV.C11.ProofsFill", "GeomV.C11.ProofsHeap", "GeomV.C11.ProofsParent", "GeomV.C11.ProofsParentIns", "GeomV.C11.ProofsParentDel"] + c11_tie.C11_TIES,
     "exe": "geomv_c11",
     "go_cmd": "c11",
     "stages": ["go:gen", "go:impl", "lean:judge"],
@@ -21,13 +21,16 @@ CFG = {
         "Heap.C11_heap_search_refines", "Heap.C11_heap_findLeaf_refines", "Heap.C11_heap_split_refines",
         # wave 3: the parent-link invariant ParentOK of the arena model (ParentView.lean / ProofsParent.lean): established by NewTree, preserved by each
         # primitive arena write pattern (entry removal with detached orphans, entry append + child.parent = holder, node allocation, root split,
-        # root collapse) and by the arena collapse loop; implies the hook's audit.  NOT yet composed along insert/Delete as wholes.
+        # root collapse) and by the arena collapse loop; implies the hook's audit.
         "Heap.C11_heap_parent_init", "Heap.C11_heap_parent_collapse", "Heap.C11_heap_parent_audit", "Heap.C11_heap_parent_reach",
         "Heap.VJ.shrink", "Heap.VJ.adopt", "Heap.VJ.adopt_noset", "Heap.VJ.alloc", "Heap.VJ.reroot", "Heap.VJ.collapse",
         "Heap.view_setEntries", "Heap.view_setParent", "Heap.view_alloc",
         # … composed along the arena operations as wholes (ProofsParentIns.lean): insert(e, level) incl. orphan entries, Insert, insert-only histories
         "Heap.chooseNode_held", "Heap.distribute_P", "Heap.split_P", "Heap.adjust_P",
         "Heap.C11_heap_parent_insertEntry", "Heap.C11_heap_parent_insert", "Heap.C11_heap_parent_reachable_partial",
+        # … Delete (entry removal, condenseTree's upward loop and re-insertion loop, root collapse) and ALL histories (ProofsParentDel.lean)
+        "Heap.VJ.shrink0", "Heap.condense_P", "Heap.reinsert_P", "Heap.C11_heap_parent_delete", "Heap.C11_heap_parent_step",
+        "Heap.C11_heap_parent_reachable",
         # T1: definitions regenerated from index/rtree/{geom,rtree}.go of the tree under test = the model's
         "C11_tie_size", "C11_tie_margin", "C11_tie_containsPoint", "C11_tie_containsRect", "C11_tie_intersect",
         "C11_tie_enlarge", "C11_tie_initBoundingBox", "C11_tie_boundingBox", "C11_tie_computeBoundingBox",
